@@ -29,11 +29,9 @@ def _q(x):
 
 
 def wf_steps(steps):
-    """positive durations, every step names the same parameters in the same order"""
-    if not steps:
-        return True
-    keys = [k for k, _ in steps[0][1]]
-    return all(F(d) > 0 for d, _ in steps) and all([k for k, _ in kv] == keys for _, kv in steps)
+    """positive durations (Mxl.C14.wfSteps).  Which parameters a step names, and in which order, is free: the steps
+    are dicts, and a step only sets the parameters it names."""
+    return all(F(d) > 0 for d, _ in steps)
 
 
 def legal(case):
@@ -46,24 +44,26 @@ VALS = {"k": ["0", "1/2", "1", "2", "2"], "u": ["0", "1", "1", "3"], "w": ["0", 
 
 
 def gen_steps(rng, illegal=False):
+    if rng.random() < 0.01:
+        return []  # an empty protocol: simulate_protocol does nothing, the time-course form cannot shift its index
     n = rng.randint(1, 5)
     keys = rng.sample(["k", "u", "w"], rng.randint(1, 3))
+    style = rng.random()
     steps = []
     for _ in range(n):
         kv = [[k, rng.choice(VALS[k])] for k in keys]
+        if len(kv) > 1 and style < 0.3 and rng.random() < 0.5:
+            rng.shuffle(kv)  # the same parameters listed in another order: the same protocol
+        elif 0.3 <= style < 0.5:
+            # steps naming different parameters: a step only sets the ones it names
+            kv = [[k, rng.choice(VALS[k])] for k in rng.sample(["k", "u", "w"], rng.randint(1, 3))]
         steps.append([rng.choice(DUR), kv])
+    if style > 0.97:
+        for s in steps[rng.randrange(n):]:
+            s[1] = s[1] + [["nope", "1"]]  # unknown parameter: KeyError when that step is reached
     if illegal:
-        r = rng.random()
         i = rng.randrange(n)
-        if r < 0.35:
-            steps[i][0] = "0"
-        elif r < 0.6:
-            steps[i][0] = rng.choice(["-1/2", "-1/4", "-1"])
-        elif r < 0.85 and len(keys) > 1:
-            steps[i][1] = list(reversed(steps[i][1]))
-        else:
-            for s in steps:
-                s[1] = s[1] + [["nope", "1"]]
+        steps[i][0] = "0" if rng.random() < 0.55 else rng.choice(["-1/2", "-1/4", "-1"])
     return steps
 
 
@@ -139,7 +139,7 @@ def gen_case(rng):
             rel = rng.random() < 0.4
             ops.append(["ptc", steps, gen_points(rng, steps, now, rel), rel])
         if wf_steps(steps):
-            now = boundaries(steps, now)[-1]
+            now = (boundaries(steps, now) or [now])[-1]
         r = rng.random()
         if r < 0.25:
             ops.append(["var", [[rng.choice(c04.VARS), rng.choice(["0", "1", "4"])]]])
@@ -150,16 +150,17 @@ def gen_case(rng):
 
 
 P1 = [["1", [["k", "1"]]], ["2", [["k", "2"]]]]
-P2 = [["1/2", [["k", "2"], ["u", "0"]]], ["1/2", [["k", "1"], ["u", "1"]]], ["1", [["k", "2"], ["u", "0"]]]]
+P2 = [["1/2", [["k", "2"], ["u", "0"]]], ["1/2", [["u", "1"], ["k", "1"]]], ["1", [["k", "2"], ["u", "0"]]]]
 GRIDS = [["1/2", "1", "5/2", "3", "4"], ["1/4"], ["3"], ["0", "1/2"], ["7/2", "4"], ["1", "3/2", "2"], ["1/2", "5/2", "3", "9/2"],
          ["5/2", "1/2"], ["0"], []]
+P3 = [["1", [["k", "1"]]], ["1/2", [["u", "3"]]], ["3/2", [["u", "1"], ["k", "2"]]]]  # steps naming different parameters
 PREFIXES = [[], [["sim", "2", 2]], [["sim", "2", 2], ["var", [["x", "1"]]]], [["sim", "1", 1], ["par", [["u", "3"]]]],
             [["ptc", P1, ["1/2", "3"], False]], [["var", [["z", "5"]]]], [["sim", "2", 2], ["clear"]],
             [["steady", "?"]], [["steady", "?"], ["var", [["x", "1"]]]]]
 
 
 def exhaustive_cases():
-    for pre, prot in itertools.product(PREFIXES, [P1, P2]):
+    for pre, prot in itertools.product(PREFIXES, [P1, P2, P3]):
         for tpps in (1, 4):
             yield {"pars": c04.PARS0, "ops": [*pre, ["proto", prot, tpps]], "fluxes": True}
         for grid, rel in itertools.product(GRIDS, [False, True]):
@@ -322,15 +323,15 @@ def setup(ctx):
         "histories ending in (or containing) simulate_protocol / simulate_protocol_time_course calls: protocols of 1-5 steps "
         "with unequal dyadic durations, 1-3 parameters, repeated values x requested grids (on boundaries, between, "
         "beyond the end, before the start, relative or absolute, unsorted / repeated / empty) x fresh or continued "
-        "simulators (simulate, time course, override, parameter update, clear, earlier protocol); an exhaustive "
-        "product of 9 prefixes x 2 protocols x 10 grids x relative/absolute plus random cases; 12% illegal protocols "
-        "(zero / negative durations, differing key order, unknown parameter) are compared model-vs-code only; "
+        "simulators (simulate, time course, steady state, override, parameter update, clear, earlier protocol); steps "
+        "listing their parameters in different orders, steps naming different parameters, unknown parameters, empty "
+        "protocols; an exhaustive product of 9 prefixes x 3 protocols x 10 grids x relative/absolute plus random cases; "
+        "12% illegal protocols (zero / negative durations) are compared model-vs-code only; "
         "distinct = distinct (parameters, history); non-trivial = legal and at least two recorded segments"
     )
     ctx.assumptions += [
         "numerics as C04: the ODE solver is a parameter of the model; states compared to 1e-6 relative",
         "pandas Timedelta arithmetic (nanosecond resolution) and Index.join are modelled, durations are dyadic >= 1/8 s",
-        "protocol steps naming different parameter sets (NaN-filled frame) are outside the model",
     ]
     ctx.trusted_base += ["scipy.integrate.solve_ivp (LSODA), pandas DataFrame/Timedelta/Index.join (modelled, tied by test)"]
 
